@@ -42,10 +42,10 @@ type EngineSpec struct {
 	Less       bool `json:"less,omitempty"`       // WithLessProcessor()
 	Funcs      bool `json:"funcs,omitempty"`      // register the harness FuncMap
 	// which optional fs interfaces the simulated FS implements
-	ReadFileFS bool `json:"read_file_fs,omitempty"`
-	StatFS     bool `json:"stat_fs,omitempty"`
-	ReadDirFS  bool `json:"read_dir_fs,omitempty"`
-	PathFill   int  `json:"path_fill,omitempty"` // distinct throw-away paths resolved before the run (fills the global path cache)
+	ReadFileFS bool      `json:"read_file_fs,omitempty"`
+	StatFS     bool      `json:"stat_fs,omitempty"`
+	ReadDirFS  bool      `json:"read_dir_fs,omitempty"`
+	PathFill   int       `json:"path_fill,omitempty"` // distinct throw-away paths resolved before the run (fills the global path cache)
 	BaseFill   *DataSpec `json:"base_fill,omitempty"` // data filled into the base template at construction (Base.* entries render with it)
 }
 
@@ -144,9 +144,9 @@ type GridSpec struct {
 
 // StackSpec is a C17 operation history.
 type StackSpec struct {
-	Roots []DataSpec  `json:"roots"`
-	Ops   []StackOp   `json:"ops"`
-	Names []string    `json:"names,omitempty"`
+	Roots []DataSpec `json:"roots"`
+	Ops   []StackOp  `json:"ops"`
+	Names []string   `json:"names,omitempty"`
 }
 
 // StackOp is one operation on stack number S.
@@ -166,24 +166,24 @@ var Entries = []string{
 
 // Violation is one property violation found by a run.
 type Violation struct {
-	Property  string `json:"property"`
-	Class     string `json:"class"`     // stable violation class (minimisation keeps the class)
-	Signature string `json:"signature"` // what known_findings.json matches on
-	Detail    string `json:"detail"`
+	Property  string   `json:"property"`
+	Class     string   `json:"class"`     // stable violation class (minimisation keeps the class)
+	Signature string   `json:"signature"` // what known_findings.json matches on
+	Detail    string   `json:"detail"`
 	Spec      *RunSpec `json:"spec,omitempty"` // narrowed spec reproducing exactly this violation (optional)
 }
 
 // Result is what executing one spec produced.
 type Result struct {
-	Run        int            `json:"run"`
-	Violations []Violation    `json:"violations,omitempty"`
+	Run        int              `json:"run"`
+	Violations []Violation      `json:"violations,omitempty"`
 	Stats      map[string]int64 `json:"stats,omitempty"`
-	Sample     any            `json:"sample,omitempty"`
-	Cover      []string       `json:"cover,omitempty"` // distinct non-trivial case keys this run covered
-	Digest     string         `json:"digest,omitempty"` // hash of everything observable in the run (determinism self-test)
-	Spec       *RunSpec       `json:"spec,omitempty"`
-	Switches   []simrt.Switch `json:"switches,omitempty"`
-	Err        string         `json:"err,omitempty"` // harness problem (exit 2 material)
+	Sample     any              `json:"sample,omitempty"`
+	Cover      []string         `json:"cover,omitempty"`  // distinct non-trivial case keys this run covered
+	Digest     string           `json:"digest,omitempty"` // hash of everything observable in the run (determinism self-test)
+	Spec       *RunSpec         `json:"spec,omitempty"`
+	Switches   []simrt.Switch   `json:"switches,omitempty"`
+	Err        string           `json:"err,omitempty"` // harness problem (exit 2 material)
 }
 
 func (r *Result) addStat(k string, v int64) {
